@@ -98,5 +98,81 @@ pub fn run_all() {
             }
         }
     }
+    nviol += clone_from_scenarios();
     println!("SUMMARY trials={trials} presentations={presentations} address_coincidences={coincidences} violations={nviol}");
+}
+
+
+// ---------------------------------------------------------------------------------------------------
+// `clone` / `clone_from` / assignment between live handles (the Gallina model has `clone` and `drop` of a
+// handle only; `Clone::clone_from` is a separate entry point of the real type). Model-independent oracle
+// taken from the property: a handle is accepted by exactly the set whose slot it holds, fetches the object
+// stashed there, keeps it alive while it exists, and releases its old slot when it is overwritten.
+thread_local! { static TOK_DROPS: std::cell::RefCell<Vec<u32>> = const { std::cell::RefCell::new(Vec::new()) }; }
+struct Tok(u32);
+impl Drop for Tok {
+    fn drop(&mut self) { TOK_DROPS.with(|d| d.borrow_mut().push(self.0)); }
+}
+unsafe impl<'gc> Collect<'gc> for Tok {
+    const NEEDS_TRACE: bool = false;
+}
+type TokHandle = DynamicRoot<Rootable![Tok]>;
+fn dropped(id: u32) -> bool { TOK_DROPS.with(|d| d.borrow().contains(&id)) }
+
+fn clone_from_scenarios() -> usize {
+    let mut nviol = 0usize;
+    let mut n = 0usize;
+    // same_set: target and source issued by the same set; same_obj: they name the same object;
+    // pad_t / pad_s: dummy stashes made first so that the slot indices differ or coincide; how: 0 clone_from, 1 assignment of a clone
+    for same_set in [false, true] {
+        for same_obj in [false, true] {
+            for pad_t in 0..3usize {
+                for pad_s in 0..3usize {
+                    for how in 0..2 {
+                        n += 1;
+                        TOK_DROPS.with(|d| d.borrow_mut().clear());
+                        let name = format!("clonefrom same_set={same_set} same_obj={same_obj} pad_t={pad_t} pad_s={pad_s} how={how}");
+                        println!("NEXTCF {name}");
+                        let mut viol = |what: &str| { nviol += 1; if nviol <= 6 { println!("VIOL {name} :: {what}"); } };
+                        let mut pads: Vec<TokHandle> = Vec::new();
+                        let mut hs: Vec<TokHandle> = Vec::new();
+                        let mut arena: Arena<Rootable![SRoot<'_>]> = Arena::new(|mc| {
+                            let a = DynamicRootSet::new(mc);
+                            let b = if same_set { a } else { DynamicRootSet::new(mc) };
+                            for k in 0..pad_t { pads.push(a.stash::<Rootable![Tok]>(mc, Gc::new(mc, Tok(100 + k as u32)))); }
+                            if !same_set { for k in 0..pad_s { pads.push(b.stash::<Rootable![Tok]>(mc, Gc::new(mc, Tok(200 + k as u32)))); } }
+                            let x = Gc::new(mc, Tok(1));
+                            let y = if same_obj { x } else { Gc::new(mc, Tok(2)) };
+                            hs.push(a.stash::<Rootable![Tok]>(mc, x)); // t
+                            hs.push(b.stash::<Rootable![Tok]>(mc, y)); // s
+                            SRoot { sets: vec![a, b] }
+                        });
+                        let src = hs.pop().unwrap();
+                        let mut tgt = hs.pop().unwrap();
+                        let src_id = if same_obj { 1 } else { 2 };
+                        if how == 0 { tgt.clone_from(&src); } else { tgt = src.clone(); }
+                        drop(src);
+                        arena.finish_cycle();
+                        arena.finish_cycle();
+                        if dropped(src_id) { viol("the object named by a live handle (made by clone_from / clone of a handle that was then dropped) was destructed"); }
+                        if !same_obj && !dropped(1) { viol("the object whose only handle was overwritten was not released after two full cycles"); }
+                        arena.mutate(|_, root| {
+                            let (a, b) = (root.sets[0], root.sets[1]);
+                            if !b.contains(&tgt) { viol("the issuing set of the source refuses the handle that was made from it"); }
+                            else if b.fetch(&tgt).0 != src_id { viol("the handle fetches a different object than its source named"); }
+                            if !same_set && a.contains(&tgt) { viol("the overwritten handle is still accepted by its old set"); }
+                        });
+                        drop(tgt);
+                        arena.finish_cycle();
+                        arena.finish_cycle();
+                        if !dropped(src_id) { viol("the object was not released after its last handle was dropped"); }
+                        drop(pads);
+                        drop(arena);
+                    }
+                }
+            }
+        }
+    }
+    println!("CLONEFROM scenarios={n} violations={nviol}");
+    nviol
 }
